@@ -11,7 +11,7 @@ from lib.core import czl
 from harness import common, sess, smppref, vsess
 from harness import C02
 
-THEOREMS = ['C01_segmented_outcome', 'C01_event_by_event', 'C01_plain_outcome', 'C01_in_call_sweep', 'C01_failure_wins', 'C01_concurrent_messages', 'C01_stray_responses', 'C01_concurrent_nonvacuous', 'C01_nonvacuous']
+THEOREMS = ['C01_segmented_outcome', 'C01_event_by_event', 'C01_plain_outcome', 'C01_in_call_sweep', 'C01_failure_wins', 'C01_concurrent_messages', 'C01_stray_responses', 'C01_cancelled_sender', 'C01_cancelled_plain', 'C01_concurrent_nonvacuous', 'C01_nonvacuous']
 IMPORTS = C02.IMPORTS
 
 
@@ -540,6 +540,72 @@ def oracle_cancel_in_sweep(obs):
     return None
 
 
+async def run_cancel_point(kind, k, i, where):
+    """the real _dequeue_messages on a fake transport, cancelled while part i (0-based) of a k-part message is being sent: `before` = suspended
+    in the sending hook of that part, `inside` = suspended inside correlator.put() of that part (an expired request planted in the store makes
+    the sweep call the application's send_error hook, which blocks). Returns (ConnectionError reports for the message, parts in the store)."""
+    import time
+    from harness import sess
+    from aiosmpplib.protocol import SubmitSm
+    from aiosmpplib.state import PhoneNumber
+    from aiosmpplib.correlator import SimpleCorrelator
+    corr = SimpleCorrelator('ccp', max_ttl_response=15.0)
+    esme, hook = sess.make_esme(correlator=corr)
+    loop = asyncio.get_running_loop()
+    _r, writer, _tr, _p = sess.make_stream(loop)
+    esme._writer = writer
+    esme._bound.set()
+    esme._session_state = esme.bind_mode.session_state
+    src = PhoneNumber('38591')
+    kw = dict(short_message='a' * (254 * (k - 1) + 10) if k > 1 else 'hello', source=src, destination=src, log_id='M', extra_data='XM')
+    if k > 1:
+        kw['auto_message_payload'] = False
+        if kind == 'udh':
+            kw['esm_class'] = 0x40
+            kw['short_message'] = 'a' * (153 * (k - 1) + 10)
+    blocked = loop.create_future()
+    never = loop.create_future()
+    seen = [0]
+
+    def sgate(m, p):
+        if isinstance(m, SubmitSm) and m.log_id == 'M':
+            n = seen[0]
+            seen[0] += 1
+            if n == i:
+                if where == 'before':
+                    if not blocked.done():
+                        blocked.set_result(True)
+                    return never
+                old = SubmitSm(short_message='old', source=src, destination=src, log_id='OLD')
+                old.sequence_num = 999999
+                corr._store['999999'] = (time.monotonic() - 1000.0, old)
+        return None
+    hook.sending_gate = sgate
+
+    def egate(m, err):
+        if getattr(m, 'log_id', '') == 'OLD':
+            if not blocked.done():
+                blocked.set_result(True)
+            return never
+        return None
+    hook.error_gate = egate
+    task = asyncio.create_task(esme._dequeue_messages())
+    await esme.broker.enqueue(SubmitSm(**kw))
+    await asyncio.wait_for(asyncio.shield(blocked), 5.0)
+    await sess.settle()
+    task.cancel()
+    try:
+        await task
+    except asyncio.CancelledError:
+        pass
+    never.cancel()
+    reports = sum(1 for e in hook.log if e[0] == 'send_error' and getattr(e[1], 'log_id', '') == 'M')
+    kinds = [type(e[2]).__name__ for e in hook.log if e[0] == 'send_error' and getattr(e[1], 'log_id', '') == 'M']
+    stored = sum(1 for _k, v in corr._store._data.items() if getattr(v[1], 'log_id', '') == 'M')
+    parts = seen[0]
+    return reports, stored, kinds, parts
+
+
 def oracle_requeue(obs):
     if obs.get('start_done'):
         return 'start() ended'
@@ -719,7 +785,7 @@ def run(ctx):
                               {'scenario': 'requeue', 'kind': kind, 'fate': fate})
     # ---- the sender is cancelled (connection loss) while the application's send_error hook for an older message runs inside put()
     for kind in ('plain', 'sar', 'udh'):
-        for hook_sleep, reset_after in ((1.0, 0.3), (0.2, 0.1), (3.0, 2.0)) + (((1.0, 0.0), (0.7, 0.45), (5.0, 0.3)) if ctx.thorough else ()):
+        for hook_sleep, reset_after in ((1.0, 0.3), (0.2, 0.1), (3.0, 2.0), (5.0, 0.3)) + (((1.0, 0.0), (0.7, 0.45), (8.0, 4.0)) if ctx.thorough else ()):
             obs = cancel_in_sweep_session(kind, hook_sleep, reset_after)
             ctx.traces += 1
             ctx.case(('cancel_in_sweep', kind, hook_sleep, reset_after), nontrivial=True)
@@ -728,6 +794,34 @@ def run(ctx):
                 ctx.violation(f'message B ({kind}) is written while an older message times out; the send_error hook for the older message takes {hook_sleep} s '
                               f'and the connection is lost {reset_after} s into it: {msg}',
                               {'scenario': 'cancel_in_sweep', 'kind': kind, 'hook_sleep': hook_sleep, 'reset_after': reset_after})
+    # ---- the sender cancelled at every point of a message (before / inside correlator.put() of each part): the real _dequeue_messages
+    #      against Model/SenderCancel.v, whose rule the translator reads off the handler
+    cancel_cases = []
+    for kind, ks in (('plain', (1,)), ('sar', (2, 3, 4)), ('udh', (2, 3, 5))):
+        for k in ks:
+            for i in range(k):
+                for where in ('before', 'inside'):
+                    reports, stored, kinds, parts = asyncio.run(run_cancel_point(kind, k, i, where))
+                    ctx.traces += 1
+                    ctx.case(('cancel_point', kind, k, i, where), nontrivial=True)
+                    ctx.count('cancel_point_' + where)
+                    if reports + (1 if stored == k else 0) != 1 or any(kd != 'ConnectionError' for kd in kinds):
+                        ctx.violation(f'the sender was cancelled {"in the sending hook" if where == "before" else "inside correlator.put()"} of part {i + 1} of {k} '
+                                      f'({kind}): send_error was called {reports} time(s) {kinds} for the message and the correlator holds {stored} of its {k} '
+                                      f'part(s) - the message gets {"no" if reports == 0 else "more than one"} outcome',
+                                      {'scenario': 'cancel_point', 'kind': kind, 'k': k, 'i': i, 'where': where})
+                    cancel_cases.append((f'({k}%nat, {"BeforePut" if where == "before" else "InsidePut"} {i}%nat)', czl([reports, stored])))
+    if proved or not getattr(ctx, 'build_failing', None):
+        bad, errs = core.run_cases('C01', 'cancel', IMPORTS + ['AV.Model.SenderCancel'],
+                                   'fun p : nat * cpoint => map Z.of_nat (ser_cancel (fst p) (snd p))', cancel_cases, shard=200)
+        for fnm, out in errs:
+            ctx.broken.append(f'model evaluation failed ({fnm}): {out[-600:]}')
+        for j in bad[:5]:
+            inp, exp = cancel_cases[j]
+            ctx.violation('model and implementation disagree on what the cancelled sender reports / has recorded', {
+                'correspondence': 'Model/SenderCancel.v vs esme.py _dequeue_messages/_send_data', 'input_term': inp, 'implementation_result': exp}, found_input=False)
+        ctx.extra['correspondence_cancel_cases'] = len(cancel_cases)
+        ctx.extra['correspondence_cancel_disagreements'] = len(bad)
     # ---- more than 255 reference-taking messages in flight at once
     for n_between in (254, 255):
         obs = ref_collision_session(n_between)
@@ -763,6 +857,10 @@ def replay(ctx, path):
         obs = cancel_in_sweep_session(r['kind'], r['hook_sleep'], r['reset_after'])
         print('replay: outcomes (time, log_id, kind):', obs['outcomes'])
         msg = oracle_cancel_in_sweep(obs)
+    elif r.get('scenario') == 'cancel_point':
+        reports, stored, kinds, parts = asyncio.run(run_cancel_point(r['kind'], r['k'], r['i'], r['where']))
+        print(f'replay: send_error calls for the message: {reports} {kinds}; parts held by the correlator: {stored} of {r["k"]}')
+        msg = None if reports + (1 if stored == r['k'] else 0) == 1 else f'{reports} report(s) by the handler and {stored} of {r["k"]} part(s) recorded'
     elif r.get('scenario') == 'requeue':
         obs = requeue_session(r['kind'], r['fate'])
         print('replay: outcomes', obs['outcomes'], 'submit_sm PDUs', obs['submits'])
